@@ -68,7 +68,7 @@ def run_case(case, ctx):
     t, db = be.new_trie()
     model = {}
     for op in case["ops"]:
-        be.apply(t, model, op)
+        be.apply(t, model, op, ctx)
     if not model:
         ctx.count("empty_skipped")
         return
